@@ -103,13 +103,19 @@ def observe_river(gridmod, flowdir, s, nval):
     return cells, lens, df
 
 
-def observe_acc(gridmod, Grid, nr, nc, fd, w, nprint=100, flow=None):
+def observe_acc(gridmod, Grid, nr, nc, fd, w, nprint=100, flow=None, bounded=False):
+    """bounded: the input grids carry user bounds (mindata / maxdata) equal to the range of their own values: the inputs are
+    unchanged by that, and accumulated sums are not input values - they are not subject to the inputs' bounds"""
     if flow is None:
         flow = make_grid(Grid, nr, nc, fd)
+        if bounded:
+            flow.mindata, flow.maxdata = min(fd), max(fd)
     field = None
     if w is not None:
         field = Grid("w", nc, nr, dtype=np.float64, nodata=-999)
         field.data = np.array(w, dtype=float).reshape(nr, nc)
+        if bounded:
+            field.mindata, field.maxdata = min(w), max(w)
     f0 = flow.data.copy()
     w0 = None if field is None else field.data.copy()
     with quiet(), Watchdog(30):
@@ -190,6 +196,7 @@ def replay_grid_c06(ctx, gridmod, c, stats):
 
 
 FIELDS = ["unit", "pow", "signed"]
+SNAKES = [(5, 5), (3, 9), (4, 6), (6, 5), (7, 4), (2, 8)]
 
 
 def field_of(kind, n):
@@ -212,7 +219,7 @@ def replay_grid_c11(ctx, gridmod, c, stats):
             try:
                 out, same, acc = observe_acc(gridmod, Grid, nr, nc, fd, None if default else w,
                                              nprint=[100, 1, 0, 3][(stats["accs"] + k) % 4],
-                                             flow=shared_flow if (stats["accs"] % 2) else None)
+                                             flow=shared_flow if (stats["accs"] % 2) else None, bounded=(stats["accs"] % 3 == 2))
             except TimeoutError as e:
                 ctx.violation("accumulate:hang", str(e), dict(case, field=kind))
                 return
@@ -283,7 +290,17 @@ def code_to_spec(ctx, gridmod, ngrids, which, maxdim):
         nr, nc = int(rng.integers(1, maxdim + 1)), int(rng.integers(1, maxdim + 1))
         n = nr * nc
         mode = rng.random()
-        if mode < 0.5:
+        if t < len(SNAKES):
+            # one flow path meandering through the whole grid (longer than any perimeter-based bound), ending in a sink or an exit
+            nr, nc = SNAKES[t]
+            n = nr * nc
+            fd = []
+            for r in range(nr):
+                for cc in range(nc):
+                    last = (cc == nc - 1) if r % 2 == 0 else (cc == 0)
+                    fd.append(4 if last else (1 if r % 2 == 0 else 16))
+            fd[(nr - 1) * nc + (nc - 1 if (nr - 1) % 2 == 0 else 0)] = 0 if t % 2 else 4
+        elif mode < 0.5:
             # mostly acyclic: flow towards the bottom-right with a few sinks / exits
             fd = [int(rng.choice([1, 2, 4, 4, 2, 1, 0, 8])) for _ in range(n)]
         else:
@@ -316,7 +333,7 @@ def code_to_spec(ctx, gridmod, ngrids, which, maxdim):
                         w = [int(v) for v in rng.integers(1, 50, size=n)]
                     else:
                         w = [int(v) for v in rng.integers(-5, 6, size=n)]
-                    out, same, _acc = observe_acc(gridmod, Grid, nr, nc, fd, None if (kind == "unit" and t % 2) else w)
+                    out, same, _acc = observe_acc(gridmod, Grid, nr, nc, fd, None if (kind == "unit" and t % 2) else w, bounded=(t % 3 == 1))
                     rec["argsame"] = rec["argsame"] and same
                     o2 = []
                     for v in out:
